@@ -232,6 +232,14 @@ theorem single_of_bool (s : State) (hc : Coherent s) (h : singleKeys s = true) :
       rw [a, b]
     | _ :: _ :: _, e, _, _ => simp at e
 
+/-- the pods of the lister have a name and an incarnation -/
+theorem lister_vals (s : State) (h : Inv s) : ∀ p, p ∈ Tbl.vals s.vPods → (keyOf p).pod ≠ "" ∧ p.uid ≠ 0 := by
+  intro p hp
+  obtain ⟨e, he, rfl⟩ := List.mem_map.mp hp
+  have hg : Tbl.get s.vPods e.1 = some e.2 := Tbl.get_of_mem_nodup h.vPodsNodup he
+  obtain ⟨_, l0, _, lwf, _⟩ := h.lister e.1 e.2 hg
+  exact ⟨by rw [(keyOf_fields e.2 lwf).2]; exact lwf.2.1, l0⟩
+
 /-- the invariant core through one move -/
 theorem core_step (s : State) (m : Move) (h : Inv s) (c : Core s) (ha : assumed10 s m = true) :
     Core (step Facts.good s m).1 := by
@@ -256,32 +264,36 @@ theorem core_step (s : State) (m : Move) (h : Inv s) (c : Core s) (ha : assumed1
   | filter ns name nodes ch fault =>
     exact filter_core _ ns name nodes ch (c.of_eq (s' := withFaults s fault 0) rfl rfl rfl rfl rfl rfl)
   | bind ns name uid node ch fault pfault =>
-    simp only [assumed10, Bool.and_eq_true, beq_iff_eq] at ha
+    simp only [assumed10, Bool.and_eq_true, Bool.or_eq_true, beq_iff_eq] at ha
     have c0 : Core (withFaults s fault pfault) := c.of_eq rfl rfl rfl rfl rfl rfl
-    refine (bind_post (withFaults s fault pfault) ns name uid node ch c0 ha.1.1 ha.2 (fun pod hpod => ?_)).core
+    refine (bind_post (withFaults s fault pfault) ns name uid node ch c0 ha.1 ha.2 (fun pod hpod => ?_)).core
     obtain ⟨_, l0, _, lwf, _⟩ := h.lister (ns, name) pod hpod
     exact ⟨by rw [(keyOf_fields pod lwf).2]; exact lwf.2.1, l0⟩
   | deliver i fault pfault => exact core_deliver _ _ i (c.of_eq (s' := withFaults s fault pfault) rfl rfl rfl rfl rfl rfl)
   | resync order fault pfault =>
-    simp only [assumed10, Bool.and_eq_true, beq_iff_eq] at ha
     have c0 : Core (withFaults s fault pfault) := c.of_eq rfl rfl rfl rfl rfl rfl
-    exact resync_core _ order c0 (single_of_alloc_eq (single_of_bool s c.coh ha.2) rfl)
-  | syncPodIPs fault => simp [assumed10] at ha
+    exact resync_core _ order c0 (single_of_alloc_eq (single_of_bool s c.coh ha) rfl)
+  | syncPodIPs fault =>
+    have c0 : Core (withFaults s fault 0) := c.of_eq rfl rfl rfl rfl rfl rfl
+    exact (syncPods_core _ (withFaults s fault 0) (lister_vals s h) c0).1
   | apiRelease ip k fault pfault =>
-    simp only [assumed10, Bool.and_eq_true, beq_iff_eq] at ha
     have c0 : Core (withFaults s fault pfault) := c.of_eq rfl rfl rfl rfl rfl rfl
-    exact apiRelease_core _ ip k c0 (single_of_alloc_eq (single_of_bool s c.coh ha.2) rfl)
+    exact apiRelease_core _ ip k c0 (single_of_alloc_eq (single_of_bool s c.coh ha) rfl)
   | reload pools fault => simp [assumed10] at ha
-  | restart => simp [assumed10] at ha
+  | restart =>
+    have ho : s.orphans = [] := by simpa [assumed10] using ha
+    have c0 : Core (withFaults s 0 0) := c.of_eq rfl rfl rfl rfl rfl rfl
+    have r := restart_same (withFaults s 0 0) c0.coh ho
+    exact ⟨r.2.1, by rw [r.2.2.2.1]; exact c.on,
+      fun j => by unfold prov; rw [r.1 j, r.2.2.1]; exact c.j j, by rw [r.2.2.1]; exact c.log⟩
   | resyncSnap => exact c.of_eq rfl rfl rfl rfl rfl rfl
   | resyncRec ip fault pfault =>
-    simp only [assumed10, Bool.and_eq_true, beq_iff_eq] at ha
     dsimp only [step]
     split
     · exact c
     · rename_i r0 _
       have c0 : Core (withFaults s fault pfault) := c.of_eq rfl rfl rfl rfl rfl rfl
-      exact (resyncOne_core _ ip r0 c0 (single_of_alloc_eq (single_of_bool s c.coh ha.2) rfl)).1.of_eq rfl rfl rfl rfl rfl rfl
+      exact (resyncOne_core _ ip r0 c0 (single_of_alloc_eq (single_of_bool s c.coh ha) rfl)).1.of_eq rfl rfl rfl rfl rfl rfl
 
 /-- where a live bound pod of the state after the move comes from: it was live and bound before, with the same node and
     addresses - or the move has just bound it and its addresses are assigned to its node -/
@@ -353,9 +365,9 @@ theorem back_step (s : State) (m : Move) (h : Inv s) (c : Core s) (ha : assumed1
   | dropEvent i => dsimp only [step]; split <;> exact Back.of_pods_eq rfl
   | filter ns name nodes ch fault => exact Back.of_pods_eq (filter_pods (withFaults s fault 0) ns name nodes ch)
   | bind ns name uid node ch fault pfault =>
-    simp only [assumed10, Bool.and_eq_true, beq_iff_eq] at ha
+    simp only [assumed10, Bool.and_eq_true, Bool.or_eq_true, beq_iff_eq] at ha
     have c0 : Core (withFaults s fault pfault) := c.of_eq rfl rfl rfl rfl rfl rfl
-    have bp := bind_post (withFaults s fault pfault) ns name uid node ch c0 ha.1.1 ha.2 (fun pod hpod => by
+    have bp := bind_post (withFaults s fault pfault) ns name uid node ch c0 ha.1 ha.2 (fun pod hpod => by
       obtain ⟨_, l0, _, lwf, _⟩ := h.lister (ns, name) pod hpod
       exact ⟨by rw [(keyOf_fields pod lwf).2]; exact lwf.2.1, l0⟩)
     rcases bp.pods with e | ⟨tp, H, htp, e, hprov⟩
@@ -373,10 +385,15 @@ theorem back_step (s : State) (m : Move) (h : Inv s) (c : Core s) (ha : assumed1
       · exact Or.inl ⟨q, liveBound_of_set_ne hq' hid, rfl, rfl⟩
   | deliver i fault pfault => exact Back.of_pods_eq (deliver_pods _ (withFaults s fault pfault) i)
   | resync order fault pfault => exact Back.of_pods_eq (resync_pods _ (withFaults s fault pfault) order)
-  | syncPodIPs fault => simp [assumed10] at ha
+  | syncPodIPs fault =>
+    have c0 : Core (withFaults s fault 0) := c.of_eq rfl rfl rfl rfl rfl rfl
+    exact Back.of_pods_eq (syncPods_core _ (withFaults s fault 0) (lister_vals s h) c0).2.1
   | apiRelease ip k fault pfault => exact Back.of_pods_eq (apiRelease_pods _ (withFaults s fault pfault) ip k)
   | reload pools fault => simp [assumed10] at ha
-  | restart => simp [assumed10] at ha
+  | restart =>
+    have ho : s.orphans = [] := by simpa [assumed10] using ha
+    have c0 : Core (withFaults s 0 0) := c.of_eq rfl rfl rfl rfl rfl rfl
+    exact Back.of_pods_eq (restart_same (withFaults s 0 0) c0.coh ho).2.2.2.2
   | resyncSnap => exact Back.of_pods_eq rfl
   | resyncRec ip fault pfault =>
     dsimp only [step]
